@@ -156,6 +156,23 @@ class SymRope:
         return 'SymRope(%r)' % (self.parts,)
 
 
+class SymDigits(SymRope):
+    """text of a DIGITS token whose numeric value is a 64-bit solver variable (a `char[N]` size): strconv.Atoi yields the
+    variable itself, so every comparison / allocation the compiler makes on N is decided by the solver over the whole range;
+    any other use of the text pins N to one witness value through the path controller (PathCtl.concretise)"""
+    __slots__ = ('term', 'orig')
+
+    def __init__(self, term, orig):
+        SymRope.__init__(self, [self])
+        self.term, self.orig = term, orig
+
+    def force(self, M):
+        return str(M.ctl.concretise(self.term, prefer=(self.orig,)))
+
+    def __repr__(self):
+        return 'SymDigits(%s)' % self.term
+
+
 class NameTable:
     def __init__(self):
         self.names = []
